@@ -97,6 +97,10 @@ func (buf *EventsBuffer) pushEvent(e *event, incompleteEventsList []*event, rech
 			incompleteEventsList = buf.getIncompleteEventsList()
 		}
 		for _, child := range incompleteEventsList {
+			if child.released {
+				// already handled and reported since the list was taken
+				continue
+			}
 			for _, parent := range child.event.Parents() {
 				if parent == eHash {
 					buf.pushEvent(child, incompleteEventsList, true)
